@@ -89,7 +89,7 @@ def R(value):
     """repr() for messages: an int beyond the interpreter's print limit has none."""
     try:
         return repr(value)
-    except (ValueError, RecursionError) as e:
+    except Exception as e:
         return '<%s without repr: %s>' % (type(value).__name__, type(e).__name__)
 
 
